@@ -110,8 +110,13 @@ pub fn degenerate(from: f64, to: f64) -> bool {
     if from < to {
         return false;
     }
+    if from == to {
+        return true;
+    }
+    // from > to: the arc runs from `from` up to `to` on the next turn. Its width is zero only when
+    // from - to is a whole number (>= 1) of turns; from - to -> 0+ is an arc of ALMOST a full turn
     let turns = (from - to) / TWO_PI;
-    (turns - turns.round()).abs() < 1e-9
+    turns.round() >= 1.0 && (turns - turns.round()).abs() < 1e-9
 }
 
 /// One call of the real sampler with dictated outcomes (no scheduler involved).
@@ -320,11 +325,28 @@ pub fn gen_limits(w: &mut Rng) -> ([f64; 6], [f64; 6]) {
                 6 => {
                     // tiny arcs and arcs one step short of a full turn
                     let a = lattice_or_real(w);
-                    let width = *w.pick(&[1e-6, 1e-3, TWO_PI - 1e-3, TWO_PI - 1e-6, 0.01]);
+                    let width = *w.pick(&[1e-6, 1e-3, TWO_PI - 1e-3, TWO_PI - 1e-6, 0.01, 1e-10, 1e-12, 3e-15, TWO_PI - 1e-12]);
                     if w.chance(0.5) {
                         (a, a + width)
                     } else {
                         (a, a + width - TWO_PI)
+                    }
+                }
+                7 if w.chance(0.3) => {
+                    // wrap-around limits a few floats apart (an arc of almost a full turn), and tiny
+                    // or subnormal values next to zero
+                    match w.below(4) {
+                        0 => {
+                            let b = lattice_or_real(w);
+                            let mut a = b;
+                            for _ in 0..w.range_usize(1, 4) {
+                                a = f64::from_bits(if a >= 0.0 { a.to_bits() + 1 } else { a.to_bits() - 1 });
+                            }
+                            (a, b)
+                        }
+                        1 => (*w.pick(&[1e-300, 5e-324, 1e-17]), *w.pick(&[0.0, -0.0])),
+                        2 => (0.0, -*w.pick(&[1e-300, 5e-324, 1e-17])),
+                        _ => (lattice_or_real(w), lattice_or_real(w)),
                     }
                 }
                 _ => (lattice_or_real(w), lattice_or_real(w)),
